@@ -3,7 +3,7 @@ import re
 
 from ..cfg import Renderer, walk, show, branches, guards_of, flat_guards, matches_conj
 from ..facts import callee_names, short
-from ..util import view, crate_fns, root_name, field_writes, expr_calls, expr_vars, expr_fields, loops
+from ..util import view, crate_fns, root_name, field_writes, expr_calls, expr_vars, expr_fields, loops, deep_calls
 from . import c06
 
 EXPLANATION = (
@@ -97,9 +97,10 @@ def check_limit(prog, r):
         return
     eb = exc[0][0]
     brs = branches(ins)
+    brs_n = branches(ins, Renderer(ins, depth=14, through_names=True))      # `let in_use = counter.load(..)` is the load
     # (a) the comparison guarding the Exceeded return
     cmp_ok = False
-    for br, labels in guards_of(ins, eb, brs):
+    for br, labels in guards_of(ins, eb, brs_n):
         e = br.expr
         if e[0] == "bin" and e[1] in ("Ge", "Gt", "Lt", "Le", "Eq", "Ne"):
             a, b = e[2], e[3]
@@ -147,18 +148,20 @@ def check_limit(prog, r):
     for bi, t in adds:
         gs = flat_guards(ins, bi, brs)
         txt = " & ".join("%s∈%s" % (show(g, 60), sorted(l)) for g, l, h in gs)
-        new_ok = any(_is_new_guard(ins, g, l, brs) for g, l, h in gs)
-        limit_ok = any(g[0] == "bin" and any(c.endswith("Atomic::<u64>::load") for c in expr_calls(g)) for g, l, h in gs)
+        new_ok = any(_is_new_guard(ins, g, l, brs) or _is_new_via_filter(ins, g, l, brs) for g, l, h in gs)
+        limit_ok = any(g[0] == "bin" and any(c.endswith("Atomic::<u64>::load") for c in expr_calls(g)) for g, l, h in gs + flat_guards(ins, bi, brs_n))
         # the decrement side (remove / drop_*) un-counts a prefix whenever the peer's last path for it goes, whatever that path's
         # flags were; so the increment may depend on nothing but "new prefix for the peer", the limit being configured and the
         # limit test -- any further condition (filtered, stale, ..) makes the two sides disagree and the counter drifts or underflows
         extra = []
         for g, l, h in gs:
-            if _is_new_guard(ins, g, l, brs):
+            if _is_new_guard(ins, g, l, brs) or _is_new_via_filter(ins, g, l, brs):
                 continue
             vs = set(expr_vars(g))
             if any(c.endswith("Atomic::<u64>::load") for c in expr_calls(g)) or "prefix_limit" in vs:
                 continue
+            if g[0] == "bin" and vs and all(any(c.endswith("Atomic::<u64>::load") for c in deep_calls(ins, ("var", v), at=bi)) or v == "max" for v in vs if v != "max") and any(v != "max" for v in vs):
+                continue            # the limit test on a hoisted load
             if vs and vs <= {"replaced", "replaced_idx", "peer_has_path", "iter", "is_new"}:
                 continue            # parts of the is_new derivation (the scan loop, the replaced entry)
             if g[0] == "discr" and any(c.endswith("Iterator::next") for c in expr_calls(g)):
@@ -236,6 +239,33 @@ def _is_new_guard(fv, g, labels, brs):
                 return False
         return True
     return False
+
+
+def _is_new_via_filter(fv, g, labels, brs):
+    """`prefix_limit.filter(|_| is_new)` tested for Some: the limit is configured and the prefix is new (the closure yields the
+    captured is_new, which must itself be the validated classification)."""
+    if not (g[0] == "discr" and set(labels) == {"Some"}):
+        return False
+    e = g[1]
+    while isinstance(e, tuple) and e and e[0] in ("ref", "deref"):
+        e = e[1]
+    if e[0] == "var":
+        from ..util import var_def_expr
+        e = var_def_expr(fv, e[1], depth=10) or e
+    if not (isinstance(e, tuple) and e and e[0] == "call" and e[1].endswith("Option::<T>::filter")):
+        return False
+    clos = [x for a in e[2][1:] for x in walk(a) if isinstance(x, tuple) and x and x[0] == "agg" and str(x[1]).startswith("closure")]
+    if len(clos) != 1:
+        return False
+    caps = set(expr_vars(clos[0]))
+    ck = _closure_key(fv.prog, clos[0][2])
+    if ck is None:
+        return False
+    cv = view(fv.prog, ck)
+    # the closure's result is its captured bool and nothing else: no call, no other condition
+    if any(cv.blocks[b]["t"]["t"] == "call" for b in cv.live) or any(cv.blocks[b]["t"]["t"] == "switch" for b in cv.live):
+        return False
+    return any(_is_new_guard(fv, ("var", c), {"true"}, brs) for c in caps)
 
 
 def _local_is_tested(fv, l, at):
